@@ -801,6 +801,20 @@ def _make_schema_loop(schema: set[CIFSchema]) -> Loop | None:
     )
 
 
+# Characters that must not begin an unquoted string in CIF 1.1.
+# (';' is only special at the start of a line, but values can end up there.)
+_RESERVED_LEADING_CHARS = frozenset('_#$[];')
+
+
+def _is_reserved_word(value: str) -> bool:
+    lower = value.lower()
+    return lower.startswith(('data_', 'save_')) or lower in (
+        'loop_',
+        'stop_',
+        'global_',
+    )
+
+
 def _quotes_for_string_value(value: str) -> str | None:
     if '\n' in value:
         return ';'
@@ -810,10 +824,13 @@ def _quotes_for_string_value(value: str) -> str | None:
         return '"'
     if '"' in value:
         return "'"
-    if ' ' in value:
+    if ' ' in value or '\t' in value:
         return "'"
     if not value:
         return "'"  # so that empty strings are shown as ''
+    if value[0] in _RESERVED_LEADING_CHARS or _is_reserved_word(value):
+        # Would otherwise be read as a tag, comment, keyword, or text field.
+        return "'"
     return None
 
 
